@@ -143,8 +143,13 @@ def check_moves(moves, cfgs, out, covered=None, stats=None):
                         f"no abstract state has that shape",
                 "detail": {"flow": cfg.flow_id, "old": old, "new": new, "kind": kind},
             })
-        elif covered is not None:
-            covered.add((cfg.flow_id, old, new))
+        else:
+            if covered is not None:
+                covered.add((cfg.flow_id, old, new))
+            if stats is not None and cfg.edge_kind.get((old, new), "").endswith("_no_label"):
+                # a `break` / `continue` outside of every loop: the interpreter stepped over it (old -> old+1)
+                stats["dyn_moves_over_loop_exit_without_label"] = (
+                    stats.get("dyn_moves_over_loop_exit_without_label", 0) + 1)
     return k
 
 
@@ -177,7 +182,7 @@ def explore_dynamic(state, cfgs, depth, max_steps=300, budget=3000):
     names = event_alphabet(state.flow_configs)
     counts = {"dyn_steps": 0, "dyn_moves": 0, "dyn_steps_raising": 0, "dyn_capped": 0,
               "dyn_max_depth": 0, "dyn_choice_points": 0,
-              "dyn_moves_with_scope_closed_by_other_head": 0}
+              "dyn_moves_with_scope_closed_by_other_head": 0, "dyn_moves_over_loop_exit_without_label": 0}
     uid0 = v2x.UIDS.n
     stack = [(state, uid0, 0, ())]
     _ACTIVE[0] = True
